@@ -681,4 +681,542 @@ theorem acct_drain (n : Nat) {w : World} (s : Nat) (hA : Acct none w) : Acct non
     · exact ih (acct_recvResponse s hA)
     · exact acct_recvResponse s hA
 
+/-- close a goal `Acct t (… updates of slot s …)` from `hA : Acct t w`, `hto : ∀ i, i ≠ s → t ≠ some i`,
+    `ht : TOk t s` -/
+macro "acct_close" : tactic => `(tactic| repeat (first
+   | assumption
+   | (refine acct_updAux _ _ ?_ (by assumption))
+   | (refine acct_setState _ _ ?_ (by assumption) (by intro h; cases h))
+   | (refine acct_script _ ?_)
+   | (refine acct_emit _ ?_)
+   | (refine acct_jobs _ ?_)
+   | (refine acct_connectError _ _ _ ?_)))
+
+theorem acct_wrWrite {w : World} {t : Option Nat} (s : Nat) (hA : Acct t w) (ht : TOk t s) :
+    Acct t (wrWrite w s).2 := by
+  have hto := ht.oth
+  obtain ⟨sc, e⟩ := popWr_eq w
+  unfold wrWrite; dsimp only
+  repeat' split
+  all_goals (try dsimp only)
+  all_goals (try rw [e])
+  all_goals acct_close
+
+theorem acct_wrPrepare {w : World} {t : Option Nat} (s : Nat) (hA : Acct t w) (ht : TOk t s) :
+    Acct t (wrPrepare w s).2 := by
+  have hto := ht.oth
+  obtain ⟨sc, e⟩ := popEnv_eq w
+  unfold wrPrepare; dsimp only
+  rw [e]
+  have A1 : Acct t { w with script := sc } := acct_script _ hA
+  split
+  · dsimp only; acct_close
+  · split
+    · dsimp only; acct_close
+    · refine acct_wrWrite s ?_ ht
+      acct_close
+
+theorem acct_wrConnected {w : World} {t : Option Nat} (s : Nat) (hA : Acct t w) (ht : TOk t s) :
+    Acct t (wrConnected w s).2 := by
+  have hto := ht.oth
+  unfold wrConnected
+  refine acct_wrPrepare s ?_ ht
+  acct_close
+
+theorem acct_slotConnectError {w : World} {t : Option Nat} (s : Nat) (hA : Acct t w) :
+    Acct t (slotConnectError w s) := by
+  unfold slotConnectError
+  split
+  · split
+    · exact acct_connectError _ _ _ hA
+    · exact hA
+  · exact hA
+
+theorem acct_wrDelayed {w : World} {t : Option Nat} (s : Nat) (hA : Acct t w) (ht : TOk t s) :
+    Acct t (wrDelayed w s).2 := by
+  have hto := ht.oth
+  obtain ⟨sc, e⟩ := popStat_eq w
+  unfold wrDelayed; dsimp only
+  rw [e]
+  have A1 : Acct t { w with script := sc } := acct_script _ hA
+  split
+  · exact hA
+  · split
+    · exact acct_slotConnectError s A1
+    · refine acct_wrConnected s ?_ ht
+      acct_close
+
+theorem acct_tighten' {w : World} {t : Option Nat} (s : Nat) (hA : Acct t w) (ht : TOk t s)
+    (h : ∀ l, lk w s = some l → l.state ≠ .init) : Acct none w := by
+  refine acct_tighten s hA ht ?_
+  intro c hc hst
+  exact absurd hst (h c.link (lk_some hc))
+
+theorem lk_script (w : World) (sc : Script) (i : Nat) : lk { w with script := sc } i = lk w i := rfl
+
+theorem lk_procAcquire (w : World) (s h p : Nat) :
+    lk (procAcquire w s h p) s = (lk w s).map fun l => { l with proc := some p } := by
+  unfold procAcquire
+  cases hs : w.slot s with
+  | none => simp [lk, hs]
+  | some c => simp [lk, hs, World.updLink, World.updSlot, World.updProc]
+
+theorem lk_openFd (w : World) (s : Nat) :
+    lk (openFd w s) s = (lk w s).map fun l => { l with fd := true } := by
+  unfold openFd
+  cases hs : w.slot s with
+  | none => simp [lk, hs]
+  | some c => simp [lk, hs, World.updLink, World.updSlot]
+
+theorem acct_wrRegister {w : World} (s h p : Nat) (hA : Acct (some s) w)
+    (hh : ∀ c, w.slot s = some c → c.link.proc.isSome ∧ c.link.fd = false) :
+    Acct (some s) (wrRegister w s h p) := by
+  have hto := (tok_some s).oth
+  unfold wrRegister; dsimp only
+  exact acct_updHost _ _ (acct_updAux _ _ (acct_openFd s hA hh) hto) (fun _ => ⟨rfl, rfl⟩)
+
+theorem acct_wrConnect {w : World} (s h p : Nat) (hA : Acct (some s) w) :
+    Acct (some s) (wrConnect w s h p).2 ∧ ((wrConnect w s h p).1 ≠ .error → Acct none (wrConnect w s h p).2) := by
+  have hto := (tok_some s).oth
+  have ht := tok_some s
+  obtain ⟨sc, e⟩ := popConn_eq w
+  unfold wrConnect; dsimp only
+  rw [e]
+  have A1 : Acct (some s) ({ w with script := sc }.emit (.dispatch s h p)) := acct_emit _ (acct_script _ hA)
+  generalize ({ w with script := sc }.emit (.dispatch s h p)) = W at A1 ⊢
+  split
+  · -- connected at once: state leaves INIT before anything else happens
+    unfold wrConnected
+    have A2 : Acct none ((W.updAux s fun a => { a with reconnects := 0 }).updLink s
+        fun l => { l with state := .prepareWrite }) := by
+      refine acct_tighten' s (t := some s) ?_ ht ?_
+      · acct_close
+      · intro l hl
+        rw [lk_updLink] at hl
+        simp at hl
+        obtain ⟨a, _, ha⟩ := hl
+        rw [← ha]; simp
+    have A3 := acct_wrPrepare s A2 (tok_none s)
+    exact ⟨acct_relax s A3 (tok_none s), fun _ => A3⟩
+  · have A2 : Acct none ((W.updAux s fun a => { a with evOut := true }).updLink s
+        fun l => { l with state := .connectDelayed }) := by
+      refine acct_tighten' s (t := some s) ?_ ht ?_
+      · acct_close
+      · intro l hl
+        rw [lk_updLink] at hl
+        simp at hl
+        obtain ⟨a, _, ha⟩ := hl
+        rw [← ha]; simp
+    exact ⟨acct_relax s A2 (tok_none s), fun _ => A2⟩
+  · exact ⟨acct_connectError _ _ _ A1, fun hne => absurd rfl hne⟩
+
+theorem acct_wrInit {w : World} (s : Nat) (hA : Acct none w) (hst : (w.linkOf s).state = .init) :
+    Acct (some s) (wrInit w s).2 ∧ ((wrInit w s).1 ≠ .error → Acct none (wrInit w s).2) := by
+  have hR := acct_relax s hA (tok_none s)
+  have hto := (tok_some s).oth
+  unfold wrInit
+  cases hs : w.slot s with
+  | none =>
+    have : (w.linkOf s).host = none := by simp [World.linkOf, hs]
+    simp only [this]
+    exact ⟨hR, fun _ => hA⟩
+  | some c =>
+    have hl : w.linkOf s = c.link := by simp [World.linkOf, hs]
+    rw [hl] at hst
+    have hclean := (hA.slots s c hs).3 (by simp) hst
+    rw [hl]
+    cases hh : c.link.host with
+    | none => exact ⟨hR, fun _ => hA⟩
+    | some h =>
+      dsimp only
+      have e0 : (w.updLink s fun l => { l with proc := none }) = w := by
+        apply updSlot_id
+        intro c' hc'
+        rw [hs] at hc'; cases hc'
+        cases c; rename_i l a; cases l; simp_all
+      rw [e0]
+      cases hp : pickProc w h with
+      | none => exact ⟨hR, fun _ => hA⟩
+      | some p =>
+        dsimp only
+        have A1 : Acct (some s) (procAcquire w s h p) :=
+          acct_procAcquire s h p hA (tok_none s) (by intro c' hc'; rw [hs] at hc'; cases hc'; exact ⟨hh, hclean.1⟩)
+        have L1 : lk (procAcquire w s h p) s = some { c.link with proc := some p } := by
+          rw [lk_procAcquire, lk_some hs]; rfl
+        obtain ⟨sc, e⟩ := popSock_eq (procAcquire w s h p)
+        rw [e]
+        have A2 : Acct (some s) { procAcquire w s h p with script := sc } := acct_script _ A1
+        have L2 : lk { procAcquire w s h p with script := sc } s = some { c.link with proc := some p } := L1
+        split
+        · exact ⟨A2, fun hne => absurd rfl hne⟩
+        · refine acct_wrConnect s h p (acct_wrRegister s h p A2 ?_)
+          intro c' hc'
+          have := lk_some hc'
+          rw [L2] at this
+          simp only [Option.some.injEq] at this
+          rw [← this]
+          simp [hclean.2]
+
+theorem acct_writeRequest {w : World} (s : Nat) (hA : Acct none w) :
+    Acct (some s) (writeRequest w s).2 ∧ ((writeRequest w s).1 ≠ .error → Acct none (writeRequest w s).2) := by
+  have hR := acct_relax s hA (tok_none s)
+  unfold writeRequest
+  split
+  · rename_i hst; exact acct_wrInit s hA hst
+  · exact ⟨acct_wrDelayed s hR (tok_some s), fun _ => acct_wrDelayed s hA (tok_none s)⟩
+  · exact ⟨acct_wrPrepare s hR (tok_some s), fun _ => acct_wrPrepare s hA (tok_none s)⟩
+  · exact ⟨acct_wrWrite s hR (tok_some s), fun _ => acct_wrWrite s hA (tok_none s)⟩
+  · exact ⟨hR, fun _ => hA⟩
+
+theorem lk_linkOf {w : World} {s : Nat} {l : Link} (h : lk w s = some l) : w.linkOf s = l := by
+  unfold lk at h; unfold World.linkOf
+  cases hs : w.slot s <;> simp [hs] at h ⊢
+  exact h
+
+theorem acct_writeErrorTail {w : World} {t : Option Nat} (s : Nat) (hA : Acct t w) (ht : TOk t s) :
+    Acct none (writeErrorTail w s).2 := by
+  unfold writeErrorTail; dsimp only
+  apply acct_backendError s _ ht
+  split
+  · exact acct_updAux _ _ hA ht.oth
+  · exact hA
+
+theorem acct_restartIfLocal {w : World} {t : Option Nat} (s : Nat) (hA : Acct t w) :
+    Acct t (restartIfLocal w s) := by
+  unfold restartIfLocal
+  split
+  · split
+    · exact acct_restartDeadProcs _ _ hA
+    · exact hA
+  · exact hA
+
+theorem acct_writeError {w : World} (s : Nat) (hA : Acct (some s) w) : Acct none (writeError w s).2 := by
+  have ht := tok_some s
+  have hto := ht.oth
+  unfold writeError; dsimp only
+  split
+  · have A1 := acct_restartIfLocal s hA
+    split
+    · exact acct_reconnect s (acct_updAux _ _ A1 hto) ht
+    · exact acct_writeErrorTail s (acct_updAux _ _ A1 hto) ht
+  · rename_i hst
+    have A0 : Acct none w := by
+      refine acct_tighten' s hA ht ?_
+      intro l hl e
+      rw [lk_linkOf hl] at hst
+      exact hst (Or.inl e)
+    have A1 := acct_recvResponse s A0
+    split
+    · exact A1
+    · exact acct_writeErrorTail s A1 (tok_none s)
+
+theorem acct_sendRequest {w : World} (s : Nat) (hA : Acct none w) : Acct none (sendRequest w s).2 := by
+  have h := acct_writeRequest s hA
+  unfold sendRequest; dsimp only
+  split
+  · rename_i hne; exact h.2 hne
+  · exact acct_writeError s h.1
+
+theorem acct_processFdevent {w : World} (s rev : Nat) (hA : Acct none w) :
+    Acct none (processFdevent w s rev).2 := by
+  unfold processFdevent; dsimp only
+  have A1 : Acct none (if rev.testBit 0 then recvResponse w s else (Rc.goOn, w)).2 := by
+    split
+    · exact acct_recvResponse s hA
+    · exact hA
+  generalize (if rev.testBit 0 then recvResponse w s else (Rc.goOn, w)) = r at A1 ⊢
+  split
+  · exact A1
+  · split
+    · exact acct_sendRequest s A1
+    · split
+      · split
+        · exact acct_sendRequest s A1
+        · split
+          · exact acct_drain _ s A1
+          · exact acct_connectionClose s A1 (tok_none s)
+      · split
+        · exact acct_backendError s A1 (tok_none s)
+        · exact A1
+
+theorem acct_subEvents {w : World} (s : Nat) (hA : Acct none w) : Acct none (subEvents w s).2 := by
+  unfold subEvents; dsimp only
+  split
+  · exact acct_processFdevent s _ (acct_updAux _ _ hA (tok_none s).oth)
+  · exact hA
+
+theorem acct_subrequest {w : World} (s : Nat) (hA : Acct none w) : Acct none (subrequest w s).2 := by
+  unfold subrequest; dsimp only
+  have A1 := acct_subEvents s hA
+  split
+  · exact hA
+  · split
+    · exact A1
+    · split
+      · split
+        · exact acct_sendRequest s A1
+        · exact acct_sendRequest s A1
+      · exact A1
+
+/-- a slot whose context holds nothing can be dropped -/
+theorem acct_free {w : World} {t : Option Nat} (s : Nat) (hA : Acct t w) (ht : TOk t s)
+    (h : ∀ l, lk w s = some l → l.host = none ∧ l.proc = none ∧ l.fd = false) :
+    Acct none { w with slot := fun i => if i = s then none else w.slot i } := by
+  refine acct_rewrite (t := t) s none hA rfl rfl (by simp) ?_ hA.hostStat ?_ hA.procStat ?_ ?_ ?_ ?_ ?_
+  case refine_7 =>
+    intro i c hi _ h0
+    have : decide (t = some i) = false := by simpa using ht.oth i hi
+    rw [this] at h0; simpa using h0
+  all_goals (try intro h'); (try intro p')
+  all_goals
+    cases hs : w.slot s with
+    | none => simp_all [hostC, procC, anyProcC, fdC]
+    | some c =>
+      have := h c.link (lk_some hs)
+      simp_all [hostC, procC, anyProcC, fdC]
+
+theorem acct_finish {w : World} {t : Option Nat} (s : Nat) (ab : Bool) (hA : Acct t w) (ht : TOk t s) :
+    Acct none (finish w s ab) := by
+  unfold finish
+  cases hs : w.slot s with
+  | none => exact acct_tighten s hA ht (by simp [hs])
+  | some c =>
+    dsimp only
+    have A1 : Acct t (if ab then w else w.emit (.fin s (if c.aux.status = 0 then 200 else c.aux.status)
+        c.aux.started (c.aux.started && !c.aux.handler))) := by
+      split
+      · exact hA
+      · exact acct_emit _ hA
+    generalize (if ab then w else w.emit (.fin s (if c.aux.status = 0 then 200 else c.aux.status)
+        c.aux.started (c.aux.started && !c.aux.handler))) = W at A1 ⊢
+    refine acct_free s (acct_backendClose s A1 ht) (tok_none s) ?_
+    intro l hl
+    rw [lk_backendClose s A1] at hl
+    cases hl' : lk W s <;> simp [hl'] at hl
+    rw [← hl]; simp
+
+theorem acct_runCon (n : Nat) {w : World} (s : Nat) (hA : Acct none w) : Acct none (runCon n w s) := by
+  induction n generalizing w with
+  | zero => exact acct_finish s true (acct_emit _ hA) (tok_none s)
+  | succ n ih =>
+    unfold runCon
+    cases hs : w.slot s with
+    | none => exact hA
+    | some c =>
+      dsimp only
+      have A1 := acct_subrequest s hA
+      split
+      · exact acct_finish s false hA (tok_none s)
+      · split
+        · split
+          · exact acct_finish s false A1 (tok_none s)
+          · exact acct_emit _ A1
+        · exact acct_finish s false A1 (tok_none s)
+        · exact acct_finish s false A1 (tok_none s)
+        · exact ih A1
+        · exact acct_finish s true (acct_emit _ A1) (tok_none s)
+
+theorem acct_runJobs {w : World} (hA : Acct none w) : Acct none (runJobs w) := by
+  unfold runJobs; dsimp only
+  exact foldl_inv (Acct none) _ _ _ (acct_jobs _ hA) (fun _ _ hb => acct_runCon _ _ hb)
+
+theorem acct_fix504 {w : World} {t : Option Nat} (s : Nat) (hA : Acct t w) (ht : TOk t s) :
+    Acct t (fix504 w s) := by
+  unfold fix504; dsimp only
+  split
+  · exact acct_updAux _ _ hA ht.oth
+  · exact hA
+
+theorem acct_hctxTimeout {w : World} (s kind : Nat) (hA : Acct none w) : Acct none (hctxTimeout w s kind) := by
+  have ht := tok_none s
+  have hto := ht.oth
+  unfold hctxTimeout; dsimp only
+  have A0 : Acct none (if w.jobs.contains s then w else { w with jobs := s :: w.jobs }) := by
+    split
+    · exact hA
+    · exact acct_jobs _ hA
+  generalize (if w.jobs.contains s then w else { w with jobs := s :: w.jobs }) = W at A0 ⊢
+  split
+  · have A1 := acct_slotConnectError s A0
+    split
+    · exact acct_reconnect s (acct_updAux _ _ A1 hto) ht
+    · exact acct_fix504 s (acct_backendError s (acct_updAux _ _ (acct_updAux _ _ A1 hto) hto) ht) ht
+  · split
+    · have A1 := acct_writeError s (acct_relax s A0 ht)
+      split
+      · exact acct_updAux _ _ A1 hto
+      · exact A1
+    · exact acct_fix504 s (acct_backendError s A0 ht) ht
+
+theorem acct_timeoutStep {w : World} (h s : Nat) (hA : Acct none w) : Acct none (timeoutStep h w s) := by
+  unfold timeoutStep; dsimp only
+  split
+  · split
+    · exact acct_hctxTimeout s 0 hA
+    · exact hA
+  · split
+    · exact acct_hctxTimeout s 1 hA
+    · split
+      · exact acct_hctxTimeout s 2 hA
+      · exact hA
+
+theorem acct_hostTimeouts {w : World} (h : Nat) (hA : Acct none w) : Acct none (hostTimeouts w h) := by
+  unfold hostTimeouts; dsimp only
+  split
+  · exact hA
+  · split
+    · exact hA
+    · exact foldl_inv (Acct none) _ _ _ hA (fun _ _ hb => acct_timeoutStep _ _ hb)
+
+theorem acct_triggerHost {w : World} (h : Nat) (hA : Acct none w) : Acct none (triggerHost w h) := by
+  unfold triggerHost; dsimp only
+  split
+  · exact acct_checkOverloaded _ (acct_hostTimeouts h hA)
+  · exact acct_restartDeadProcs _ _ (acct_hostTimeouts h hA)
+
+theorem acct_schedRun {w : World} (hA : Acct none w) : Acct none (schedRun w) := by
+  unfold schedRun
+  refine ⟨hA.1, hA.2, hA.3, hA.4, hA.5, ?_, ?_, hA.8, hA.9⟩
+  · have := hA.fds
+    show w.curFds - w.pendClose = fdCnt w + ((0 : Nat) : Int)
+    omega
+  · have := hA.ghost
+    show (w.opened : Int) = ((w.closed + w.pendClose : Nat) : Int) + fdCnt w + ((0 : Nat) : Int)
+    omega
+
+/-- a fresh request context (holding nothing) enters a free slot -/
+theorem acct_alloc {w : World} (s : Nat) (a : Aux) (hA : Acct none w) (hs : w.slot s = none)
+    (hlt : s < w.nslots) :
+    Acct none { w with slot := fun i => if i = s then some { aux := a } else w.slot i } := by
+  refine acct_rewrite (t := none) s (some { aux := a }) hA rfl rfl (fun _ => hlt) ?_ hA.hostStat ?_
+    hA.procStat ?_ ?_ ?_ ?_ ?_
+  case refine_6 =>
+    intro c hc; simp at hc; subst hc
+    exact ⟨by simp, by simp, by simp⟩
+  case refine_7 =>
+    intro i c hi _ h0; simpa using h0
+  all_goals (try intro h'); (try intro p')
+  all_goals simp [hs, hostC, procC, anyProcC, fdC]
+
+/-- a link update that moves no host/proc/fd reference -/
+theorem acct_updLink {w : World} {t : Option Nat} (s : Nat) (f : Link → Link) (hA : Acct t w) (ht : TOk t s)
+    (hf : ∀ l, lk w s = some l → (f l).host = l.host ∧ (f l).proc = l.proc ∧ (f l).fd = l.fd ∧
+      ((f l).state = .init → l.proc = none ∧ l.fd = false)) : Acct t (w.updLink s f) := by
+  cases hs : w.slot s with
+  | none => rw [World.updLink, updSlot_none _ hs]; exact hA
+  | some c =>
+    have hok := hA.slots s c hs
+    obtain ⟨h1, h2, h3, h4⟩ := hf c.link (lk_some hs)
+    refine acct_link s c { c with link := f c.link } hA hs (updSlot_some _ hs) rfl
+      ?_ ?_ ?_ ?_ ?_ ?_ ?_ ?_ ht.oth
+    · intro h'; simp [World.updLink, World.updSlot, hostC, h1]
+    · intro h'; simp [World.updLink, World.updSlot, hA.hostStat]
+    · intro h' p'; simp [World.updLink, World.updSlot, procC, h1, h2]
+    · intro h' p'; simp [World.updLink, World.updSlot, hA.procStat]
+    · simp [World.updLink, World.updSlot, anyProcC, h2]
+    · simp [World.updLink, World.updSlot, fdC, h3]
+    · simp [World.updLink, World.updSlot, fdC, h3]
+    · refine ⟨?_, ?_, fun _ hst => ?_⟩
+      · simp only [h1, h2]; exact hok.1
+      · simp only [h2, h3]; exact hok.2
+      · simp only [h2, h3]; exact h4 hst
+
+theorem acct_opArrive {w : World} (s key : Nat) (hA : Acct none w) : Acct none (opArrive w s key) := by
+  have ht := tok_none s
+  have hto := ht.oth
+  unfold opArrive
+  split
+  · exact acct_emit _ hA
+  · rename_i hlt
+    split
+    · exact acct_emit _ hA
+    · rename_i hfree
+      have hs : w.slot s = none := by
+        cases h : w.slot s with
+        | none => rfl
+        | some c => simp [h] at hfree
+      dsimp only
+      have A0 := acct_alloc s { key := key } hA hs (by omega)
+      generalize hW : ({ w with slot := fun i => if i = s then some { aux := { key := key } } else w.slot i } : World) = W at A0 ⊢
+      have L0 : lk W s = some {} := by rw [← hW]; simp [lk]
+      have A1 := acct_hostGet s A0 ht
+      have L1 : lk (hostGet W s).2 s = some {} := by rw [lk_hostGet, L0]
+      split
+      · exact acct_finish s false (acct_emit _ A1) ht
+      · rename_i h _
+        have L2 : lk ({ (hostGet W s).2 with noteSent := false }) s = some {} := L1
+        refine acct_runCon _ s (acct_emit _ (acct_updAux _ _ (acct_hostAssign s h ?_ ht ?_) hto))
+        · refine acct_updLink s _ (acct_noteSent false A1) ht ?_
+          intro l hl
+          rw [L2] at hl; simp only [Option.some.injEq] at hl; subst hl
+          simp
+        · intro c hc
+          have := lk_some hc
+          rw [lk_updLink, L2] at this
+          simp at this
+          rw [← this]
+
+theorem acct_opEvent {w : World} (s mask : Nat) (hA : Acct none w) : Acct none (opEvent w s mask) := by
+  have hto := (tok_none s).oth
+  unfold opEvent; dsimp only
+  split
+  · exact acct_emit _ hA
+  · split
+    · exact acct_emit _ hA
+    · split
+      · exact acct_emit _ hA
+      · exact acct_runJobs (acct_jobs _ (acct_updAux _ _ (acct_emit _ hA) hto))
+
+theorem acct_opWake {w : World} (s : Nat) (hA : Acct none w) : Acct none (opWake w s) := by
+  unfold opWake
+  split
+  · exact acct_emit _ hA
+  · split
+    · exact acct_emit _ hA
+    · exact acct_runCon _ s (acct_emit _ hA)
+
+theorem acct_opAbort {w : World} (s : Nat) (hA : Acct none w) : Acct none (opAbort w s) := by
+  unfold opAbort
+  split
+  · exact acct_emit _ hA
+  · split
+    · exact acct_emit _ hA
+    · exact acct_finish s true (acct_emit _ hA) (tok_none s)
+
+theorem acct_opTick {w : World} (dt : Nat) (hA : Acct none w) : Acct none (opTick w dt) := by
+  unfold opTick; dsimp only
+  refine acct_runJobs (foldl_inv (Acct none) _ _ _ (acct_emit _ (acct_now _ hA)) (fun _ _ hb => acct_triggerHost _ hb))
+
+theorem acct_step {w : World} (op : Op) (hA : Acct none w) : Acct none (step w op) := by
+  unfold step; dsimp only
+  apply acct_schedRun
+  cases op with
+  | arrive s key sc => exact acct_opArrive s key (acct_script _ hA)
+  | event s mask sc => exact acct_opEvent s mask (acct_script _ hA)
+  | wake s sc => exact acct_opWake s (acct_script _ hA)
+  | abort s => exact acct_opAbort s (acct_script _ hA)
+  | tick dt sc => exact acct_opTick dt (acct_script _ hA)
+
+theorem acct_run {w : World} (ops : List Op) (hA : Acct none w) : Acct none (run w ops) := by
+  unfold run
+  exact foldl_inv (Acct none) _ _ _ hA (fun _ _ hb => acct_step _ hb)
+
+theorem sumTo_zero (n : Nat) : sumTo n (fun _ => 0) = 0 := by
+  induction n with
+  | zero => rfl
+  | succ n ih => simp [sumTo, ih]
+
+theorem acct_init (balance : Nat) (wkr : Bool) (nslots : Nat) (specs : List HostSpec) :
+    Acct none (initWorld balance wkr nslots specs) := by
+  constructor
+  · intro h; simp [initWorld, hostCnt, hostC, sumTo_zero]; cases specs[h]? <;> rfl
+  · intro h; simp [initWorld]; cases specs[h]? <;> rfl
+  · intro h p; simp [initWorld, procCnt, procC, sumTo_zero]; cases specs[h]? <;> rfl
+  · intro h p; simp [initWorld]; cases specs[h]? <;> rfl
+  · simp [initWorld, anyProcCnt, anyProcC, sumTo_zero]
+  · simp [initWorld, fdCnt, fdC, sumTo_zero]
+  · simp [initWorld, fdCnt, fdC, sumTo_zero]
+  · intro s c h; simp [initWorld] at h
+  · intro s _; simp [initWorld]
+
 end LtVerif.Gw
